@@ -29,7 +29,7 @@ func registerC17() {
 		Level: "exploration",
 		Rule: "all 2^32 semicircle values for Latitude and Longitude (constructors, Invalid, Semicircles, Degrees, NewXDegrees round trip) and all 2^32 second counts " +
 			"(decode/encode bijection, UTC, whole seconds, monotone, IsBaseTime), in 4096 chunks of 2^20 values; the printed form is checked on a stride of 4099 plus all " +
-			"boundary values in the quick tier and on every value in the thorough tier; family concurrent-print: 8 goroutines print and parse 40000 coordinates each at the same time; every value is a distinct case, non-trivial because each exercises the oracle",
+			"boundary values in the quick tier and on every value in the thorough tier; family spread: 128 of the chunks once more, also in a binary built with GOARCH=386 (32-bit int); family concurrent-print: 8 goroutines print and parse 40000 coordinates each at the same time; every value is a distinct case, non-trivial because each exercises the oracle",
 		Assume: []string{
 			"'outside +-90 degrees' is read as the library's documented semicircle range [-2^30, 2^30-1]; +2^30 (exactly +90) is invalid in the code and in its own test table",
 			"the time conversion pair is reached through the verif hook (VerifDecodeDateTime / VerifEncodeTime)",
@@ -38,9 +38,11 @@ func registerC17() {
 		Families: []lib.Family{
 			{Name: "coords", N: func(string) uint64 { return 4096 }, Run: c17Coords},
 			{Name: "time", N: func(string) uint64 { return 4096 }, Run: c17Time},
+			{Name: "spread", N: func(string) uint64 { return 128 }, Run: func(c *lib.Ctx, idx uint64) { c17Coords(c, idx*32+7); c17Time(c, idx*32+19) }},
 			{Name: "concurrent-print", N: func(t string) uint64 { return tierN(t, 32, 512) }, Run: c17ConcurrentPrint},
 		},
-		Exhaustive: func(string) bool { return true },
+		Families386: []string{"spread", "concurrent-print"}, // 128 chunks of 2^20 values spread over the range, again in a GOARCH=386 binary
+		Exhaustive:  func(string) bool { return true },
 		Finish: func(c *lib.Ctx, cov map[string]interface{}) {
 			cov["printed_form_exhaustive"] = c.Tier == "thorough"
 		},
